@@ -141,6 +141,28 @@ def run1(tier, seed, replay=None):
                         obs["lens"] = [r["lenA"], r["lenB"]]
                 events.append({"ev": "MakeIso", "name": name, "tool": "make-iso", "inputOk": input_ok, "target": target, "obs": obs, "stderr": err[-200:]})
 
+        # ---- several runs racing for one target
+        import concurrent.futures
+        for rnd in range(3 if not full else 12):
+            n += 1
+            base = os.path.join(scratch, "race%d" % n)
+            os.makedirs(base)
+            nodes = isotrees.wide_tree(rng, 40, 3)
+            nf = os.path.join(base, "nodes.json")
+            json.dump(nodes, open(nf, "w"))
+            hrun(["mkworld", "-nodes", nf, "-base", base])
+            d = os.path.join(base, "g", "d")
+            out = os.path.join(base, "raced.iso")
+            with concurrent.futures.ThreadPoolExecutor(max_workers=8) as ex:
+                res = list(ex.map(lambda _: run_cli(binary, ["make-iso", d, out], base)[0], range(8)))
+            ref = os.path.join(base, "ref.iso")
+            hrun(["dumpiso", "-dir", d, "-ps3", "false", "-out", ref])
+            same = False
+            if os.path.exists(out):
+                same = json.loads(hrun(["cmpmask", "-iso", iso_json, "-a", ref, "-b", out, "-ps3", "false"]))["equal"]
+            events.append({"ev": "Race", "name": "race%d" % rnd, "tool": "make-iso", "runs": len(res), "succeeded": res.count("ok"), "crashed": res.count("crash"),
+                           "targetIsImage": same, "inputOk": True, "target": "absent", "obs": {"exit": "race"}})
+
         # ---- decrypt
         def key(rng):
             return "".join("%02x" % rng.randrange(256) for _ in range(16))
